@@ -968,7 +968,11 @@ func callBuiltin(caller *frame, fn *ssa.Builtin, args []value) value {
 			return caller.appendValues(args[0].([]value), strBytes(args[1]))
 		}
 		// append([]T, ...[]T) []T
-		return caller.appendValues(args[0].([]value), args[1].([]value))
+		var et types.Type
+		if sl, ok := fn.Type().(*types.Signature).Params().At(0).Type().Underlying().(*types.Slice); ok {
+			et = sl.Elem()
+		}
+		return caller.appendValuesT(args[0].([]value), args[1].([]value), et)
 
 	case "copy": // copy([]T, []T) int or copy([]byte, string) int
 		var src []value
